@@ -150,6 +150,9 @@ def gen_spec(draw, d, must_fail, counter):
                 # without evaluating anything else (Check after its sub-spec, a T index that is missing)
                 return [draw(S_(['checkrec', 'tindexrec'])), n, [['fail', 'path', n + 500], ['fail', 'tstep', n + 501]][:draw(st.integers(1, 2))],
                         draw(S_(['const', 'factory', 'spec']))]
+            if draw(S_(range(8))) == 0:
+                # the failing spec is a bare T expression in ARGUMENT position (a default, a computed key, a Call argument)
+                return ['argfail', draw(S_(['coalesce-default', 'tkey', 'call'])), n]
             return ['fail', draw(S_(['path', 'tstep', 'glomerror', 'valueerror', 'check', 'match', 'sunbound', 'path', 'tstep', 'keyerror', 'oserror'])), n]
         return ['ok', draw(S_(['plain', 'plain', 'plain', 'long', 'unicode', 'clone'] * 4 + ['cyclic'])), n]
     sub = lambda mf: gen_spec(draw, d - 1, mf, counter)
@@ -228,6 +231,13 @@ def build(r):
         if kind == 'match':
             return Match('expected%d' % n)
         return getattr(S, 'unbound%d' % n)
+    if k == 'argfail':
+        bad = T['argnope%d' % r[2]]
+        if r[1] == 'coalesce-default':
+            return Coalesce('missing%d' % r[2], default=bad)
+        if r[1] == 'tkey':
+            return T[bad]
+        return Call(ident, args=(bad,))
     if k in ('checkrec', 'tindexrec'):
         how = r[3] if len(r) > 3 else 'const'
         text = ('const%d' if k == 'checkrec' else 'nokey%d') % r[1]
@@ -616,6 +626,14 @@ def check(recipe, ctx):
         ctx.label('not-wrapped')
         return
     parsed, path, wrapped = check_trace(err, root, target, where)
+    # a T expression that fails in argument position is the innermost spec that failed: it is listed
+    for m_ in re.finditer(r"\['argfail', '[a-z-]+', (\d+)\]", repr(r)):
+        want_ = "T['argnope%s']" % m_.group(1)
+        if isinstance(wrapped, glom.PathAccessError) and want_ in repr(wrapped.path) and \
+                not any(p_[2] == 'Spec' and p_[3] == want_ for p_ in parsed):
+            raise Mismatch('path-spec-missing', '%s: the argument expression %s failed but has no Spec line of its own:\n%s'
+                           % (where, want_, str(err)))
+        ctx.label('fails-in-argument-position')
     # exact comparison for traces without branch points
     if all(p[0] == 0 and p[1] == '-' for p in parsed):
         failed_off_path = any(c.exc is not None and c not in path for n in path for c in n.children)
@@ -1011,7 +1029,7 @@ CLASSIFIERS = {'F36-call-args-lazy': is_call_args_lazy}
 
 SUBS = [
     Sub('trace', check, gen=gen, quick=3000, thorough=10000,
-        floors={'branch-point': 0.1, 'recovered-branch': 0.1, 'depth-3': 0.05, 'linear-exact': 0.1, 'target-contains-itself': 0.01, 'exception-with-own-str': 0.03}),
+        floors={'branch-point': 0.1, 'recovered-branch': 0.1, 'depth-3': 0.05, 'linear-exact': 0.1, 'target-contains-itself': 0.01, 'exception-with-own-str': 0.03, 'fails-in-argument-position': 0.02}),
     Sub('lazy', check_lazy, gen=gen_lazy, quick=800, thorough=3000, floors={'steps-between': 0.2, 'lazy-map': 0.05, 'fails-after-consumer': 0.15}),
     Sub('matchalts', check_matchalts, gen=gen_matchalts, quick=300, thorough=1000),
     Sub('enclosed', check_enclosed, gen=gen_enclosed, quick=400, thorough=1500),
